@@ -310,6 +310,37 @@ Section Proofs.
   Definition is_message_of (d : msg D) (m : smsg) : Prop :=
     finish D decode_fields (fst m) (snd m) = (ROk d, true).
 
+  Lemma get_next_ok cs st q tail rest st1 q1 cs1 :
+    Inv st q (arr_stream cs ++ tail) rest ->
+    read_whole_message cs st q = (ROk tt, st1, q1, cs1) ->
+    exists m rest' d, rest = m :: rest'
+      /\ get_next_message D decode_fields cs st q = (ROk d, rstate0, q1, cs1)
+      /\ is_message_of d m /\ Inv rstate0 q1 (arr_stream cs1 ++ tail) rest'.
+  Proof.
+    intros I ER. unfold get_next_message. rewrite ER.
+    destruct (rwm_inv _ _ _ _ _ _ _ _ _ I ER) as (I1 & Hr).
+    destruct Hr as [[_ W]|[G|G]]; [|discriminate G|discriminate G].
+    destruct rest as [|m rest']; [discriminate W|]. cbn [whole] in W. apply N.leb_le in W.
+    destruct (inv_head _ _ _ _ _ I1) as (H16 & Hf & Hp & Hfd).
+    assert (Ef : filled st1 = len (fst m)) by lia.
+    rewrite Ef in Hp, Hfd. rewrite firstnN_all in Hp by lia.
+    rewrite firstnN_all in Hfd by (rewrite len_annot; lia).
+    assert (Hne : fst m <> []) by (intros Z; rewrite Z in H16; cbn in H16; lia).
+    rewrite rights_of_annot in Hfd by exact Hne.
+    pose proof (inv_frames _ _ _ _ I1) as F. inversion F as [|? ? (_ & _ & [d Hd] & _) F']; subst.
+    rewrite Hp, Hfd, Hd.
+    exists m, rest', d. split; [reflexivity|]. split; [reflexivity|]. split; [exact Hd|].
+    pose proof (inv_stream _ _ _ _ I1) as S. rewrite Ef, astream_cons in S.
+    replace (len (fst m)) with (len (annot (fst m) (snd m)) + 0) in S by (rewrite len_annot; lia).
+    rewrite skipnN_app_ge, skipnN_0 in S.
+    constructor; cbn [rstate0 buf filled fds_in]; try reflexivity.
+    + exact F'.
+    + apply (inv_segs _ _ _ _ I1).
+    + lia.
+    + exact S.
+    + cbn. lia.
+  Qed.
+
   Lemma get_next_inv cs st q tail rest r st' q' cs' :
     Inv st q (arr_stream cs ++ tail) rest ->
     get_next_message D decode_fields cs st q = (r, st', q', cs') ->
@@ -317,30 +348,14 @@ Section Proofs.
     \/ (exists m rest' d, rest = m :: rest' /\ r = ROk d /\ is_message_of d m
                           /\ Inv st' q' (arr_stream cs' ++ tail) rest').
   Proof.
-    intros I E. unfold get_next_message in E.
+    intros I E.
     destruct (read_whole_message cs st q) as [[[r1 st1] q1] cs1] eqn:ER.
     destruct (rwm_inv _ _ _ _ _ _ _ _ _ I ER) as (I1 & Hr).
     destruct Hr as [[-> W]|G].
-    - right. destruct rest as [|m rest']; [discriminate W|]. cbn [whole] in W. apply N.leb_le in W.
-      destruct (inv_head _ _ _ _ _ I1) as (H16 & Hf & Hp & Hfd).
-      assert (Ef : filled st1 = len (fst m)) by lia.
-      rewrite Ef in Hp, Hfd. rewrite firstnN_all in Hp by lia.
-      rewrite firstnN_all in Hfd by (rewrite len_annot; lia).
-      assert (Hne : fst m <> []) by (intros Z; rewrite Z in H16; cbn in H16; lia).
-      rewrite rights_of_annot in Hfd by exact Hne.
-      pose proof (inv_frames _ _ _ _ I1) as F. inversion F as [|? ? (_ & _ & [d Hd] & _) F']; subst.
-      rewrite Hp, Hfd, Hd in E. injection E as <- <- <- <-.
-      exists m, rest', d. split; [reflexivity|]. split; [reflexivity|]. split; [exact Hd|].
-      pose proof (inv_stream _ _ _ _ I1) as S. rewrite Ef, astream_cons in S.
-      replace (len (fst m)) with (len (annot (fst m) (snd m)) + 0) in S by (rewrite len_annot; lia).
-      rewrite skipnN_app_ge, skipnN_0 in S.
-      constructor; cbn [rstate0 buf filled fds_in]; try reflexivity.
-      + exact F'.
-      + apply (inv_segs _ _ _ _ I1).
-      + lia.
-      + exact S.
-      + cbn. lia.
-    - left. destruct G as [-> | ->]; injection E as <- <- <- <-; eexists; (split; [reflexivity|]); auto.
+    - right. destruct (get_next_ok _ _ _ _ _ _ _ _ I ER) as (m & rest' & d & -> & EG & Hd & I2).
+      rewrite EG in E. injection E as <- <- <- <-. exists m, rest', d. auto.
+    - left. unfold get_next_message in E. rewrite ER in E.
+      destruct G as [-> | ->]; injection E as <- <- <- <-; eexists; (split; [reflexivity|]); auto.
   Qed.
 
   (** * Whole schedules *)
@@ -536,23 +551,74 @@ Section Proofs.
     intros I HF.
     destruct (rwm_progress K F st q m rest' I ltac:(lia)) as (st1 & q1 & cs1 & ER & Ha).
     assert (I' : Inv st q (arr_stream (repeat (KDeliver K) F) ++ []) (m :: rest')) by (rewrite arr_stream_repeat; exact I).
-    destruct (get_next_message D decode_fields (repeat (KDeliver K) F) st q) as [[[r st2] q2] cs2] eqn:EG.
-    pose proof EG as EG'. unfold get_next_message in EG'. rewrite ER in EG'.
-    destruct (get_next_inv _ _ _ _ _ _ _ _ _ I' EG) as [(e & -> & He & I1)|(m0 & rest0 & d & Hm & -> & Hd & I1)].
-    - exfalso. destruct (finish D decode_fields (peek st1) (fds_in st1)) as [r0 [|]]; injection EG' as E0 _ _ _;
-        destruct (rwm_inv _ _ _ _ _ _ _ _ _ I' ER) as (I2 & _).
-      + (* finish returned an error although the frame is ok: impossible, shown through get_next_inv's other branch *)
-        clear -E0 He I2 ER I' EG. 
-        destruct He; subst; revert EG; unfold get_next_message; rewrite ER; intros EG.
-        all: fail.
-      + fail.
-    - injection Hm as <- <-.
-      cbn [step]. rewrite EG.
-      assert (cs2 = cs1 /\ q2 = q1 /\ st2 = rstate0) as (-> & -> & ->).
-      { destruct (finish D decode_fields (peek st1) (fds_in st1)) as [r0 [|]]; injection EG' as _ <- <- <-.
-        - auto.
-        - exfalso. fail. }
-      exists d, (arrivals q1 cs1). split; [reflexivity|]. split; [exact Hd|].
-      apply (arrivals_inv cs1). rewrite Ha in *. exact I1.
+    destruct (get_next_ok _ _ _ _ _ _ _ _ I' ER) as (m0 & rest0 & d & Hm & EG & Hd & I1).
+    injection Hm as <- <-.
+    exists d, (arrivals q1 cs1). cbn [step]. rewrite EG. split; [reflexivity|]. split; [exact Hd|].
+    apply (arrivals_inv cs1). exact I1.
+  Qed.
+
+  Definition drain_ev (K : N) (F : nat) : ev := GetNext Nonblock (repeat (KDeliver K) F).
+
+  Lemma drain_all K F g : forall rest st q st' q' os,
+    Inv st q [] rest -> Forall (fun m => len (fst m) <= N.of_nat F) rest -> (length rest <= g)%nat ->
+    run_from D decode_fields (repeat (drain_ev K F) g) st q = (st', q', os) ->
+    Forall2 is_message_of (delivered D os) rest /\ Inv st' q' [] [].
+  Proof.
+    induction g as [|g IH]; intros rest st q st' q' os I HF Hg E.
+    - destruct rest; [|cbn in Hg; lia]. cbn in E. injection E as <- <- <-. split; [constructor|exact I].
+    - cbn [repeat run_from] in E.
+      destruct (step D decode_fields (drain_ev K F) st q) as [[st1 q1] o1] eqn:ES.
+      destruct (run_from D decode_fields (repeat (drain_ev K F) g) st1 q1) as [[st2 q2] o2] eqn:ER.
+      injection E as <- <- <-. rewrite delivered_app.
+      destruct rest as [|m rest'].
+      + assert (I' : Inv st q (ev_stream (drain_ev K F) ++ []) []) by (cbn [drain_ev ev_stream]; rewrite arr_stream_repeat; exact I).
+        destruct (step_inv _ _ _ _ _ _ _ _ I' ES) as (_ & [(Hd & I1)|(m & rest' & d & Hc & _)]); [|discriminate Hc].
+        rewrite Hd. apply (IH [] _ _ _ _ _ I1 HF ltac:(cbn; lia) ER).
+      + inversion HF as [|? ? Hm HF']; subst.
+        destruct (get_next_progress K F st q m rest' I Hm) as (d & q1' & ES' & Hd & I1).
+        unfold drain_ev in ES. rewrite ES' in ES. injection ES as <- <- <-.
+        destruct (IH rest' _ _ _ _ _ I1 HF' ltac:(cbn in Hg; lia) ER) as (H2 & I2).
+        split; [|exact I2]. cbn [delivered flat_map app]. constructor; assumption.
+  Qed.
+
+  Lemma run_from_app a b st q :
+    run_from D decode_fields (a ++ b) st q =
+    let '(st1, q1, o1) := run_from D decode_fields a st q in
+    let '(st2, q2, o2) := run_from D decode_fields b st1 q1 in (st2, q2, o1 ++ o2).
+  Proof.
+    revert st q. induction a as [|e a IH]; intros st q.
+    - cbn [app run_from]. destruct (run_from D decode_fields b st q) as [[? ?] ?]. reflexivity.
+    - cbn [app run_from]. destruct (step D decode_fields e st q) as [[st1 q1] o1]. rewrite IH.
+      destruct (run_from D decode_fields a st1 q1) as [[st2 q2] o2].
+      destruct (run_from D decode_fields b st2 q2) as [[st3 q3] o3]. now rewrite app_assoc.
+  Qed.
+
+  Lemma Forall2_app_firstn_skipn {A B} (R : A -> B -> Prop) a1 a2 (l : list B) n :
+    Forall2 R a1 (firstn n l) -> Forall2 R a2 (skipn n l) -> Forall2 R (a1 ++ a2) l.
+  Proof. intros H1 H2. rewrite <- (firstn_skipn n l). now apply Forall2_app. Qed.
+
+  Theorem completeness sent sched K F g st q os :
+    Forall frame_ok sent -> chunking sent sched [] ->
+    Forall (fun m => len (fst m) <= N.of_nat F) sent -> (length sent <= g)%nat ->
+    run D decode_fields (sched ++ repeat (drain_ev K F) g) = (st, q, os) ->
+    Forall2 is_message_of (delivered D os) sent /\ Forall benign os.
+  Proof.
+    intros HF C HL Hg E. unfold run in E. rewrite run_from_app in E.
+    destruct (run_from D decode_fields sched rstate0 []) as [[st1 q1] o1] eqn:E1.
+    destruct (run_from D decode_fields (repeat (drain_ev K F) g) st1 q1) as [[st2 q2] o2] eqn:E2.
+    injection E as <- <- <-.
+    destruct (reassembly sent sched [] st1 q1 o1 HF C E1) as (n & Hn & H2 & B1 & I1).
+    assert (HL' : Forall (fun m => len (fst m) <= N.of_nat F) (skipn n sent)).
+    { rewrite <- (firstn_skipn n sent) in HL. apply Forall_app in HL. apply HL. }
+    assert (Hg' : (length (skipn n sent) <= g)%nat) by (rewrite skipn_length; lia).
+    destruct (drain_all K F g _ _ _ _ _ _ I1 HL' Hg' E2) as (H3 & _).
+    split.
+    - rewrite delivered_app. apply (Forall2_app_firstn_skipn _ _ _ _ n); assumption.
+    - apply Forall_app. split; [exact B1|].
+      assert (I1' : Inv st1 q1 (wstream (repeat (drain_ev K F) g) ++ []) (skipn n sent)).
+      { replace (wstream (repeat (drain_ev K F) g)) with (@nil abyte); [exact I1|].
+        clear. induction g as [|g IH]; [reflexivity|]. cbn [repeat wstream flat_map].
+        cbn [drain_ev ev_stream]. rewrite arr_stream_repeat. exact IH. }
+      destruct (run_inv _ _ _ _ _ _ _ _ I1' E2) as (_ & _ & _ & _ & B2). exact B2.
   Qed.
 End Proofs.
